@@ -1,4 +1,6 @@
 pub mod chan_inline;
 pub mod choices;
 pub mod core;
+pub mod fsim;
 pub mod rng;
+pub mod simfs;
